@@ -126,6 +126,12 @@ def ty_forms(job, cs):
     if job['timed']:
         if cs % 10 == 0:
             out.append(('text1-hand', txt1(cs), True))
+        if cs % 10 == 0:
+            # hand-timed marks in the clock forms: m:ss.x (also with zero minutes) and dotted m.ss.x
+            hand = '%d:%02d.%d' % (cs // 6000, (cs % 6000) // 100, (cs % 100) // 10)
+            out.append(('m:ss.x-hand', hand, True))
+            if cs >= 6000:
+                out.append(('m.ss.x-hand', hand.replace(':', '.'), True))
         if cs >= 6000:
             out.append(('m:ss.xx', mss(cs), False))
             out.append(('m.ss.xx', mss(cs).replace(':', '.'), False))           # the Norwegian way: dots throughout
